@@ -69,20 +69,23 @@ type apCase struct {
 	startOff     time.Duration // starttime = now + startOff (noStart: absent)
 	noStart      bool
 	endOff       time.Duration
+	startYears   int // starttime / endtime moved by whole years (beyond what a Duration can express)
+	endYears     int
 	caddr        []types.HostAddress
 	pac          string // "", "valid", "badsig", "malformed"
 	flipTkt      int    // flip this bit of the ticket ciphertext (-1 none)
 	truncTkt     int    // drop this many bytes from the end of the ticket ciphertext
 
 	// authenticator defects
-	aCname    []string
-	aCnt      int32
-	aCrealm   string
-	ctimeOff  time.Duration // ctime+cusec = now + ctimeOff
-	authUsage uint32        // 0 = the right one
-	flipAuth  int
-	truncAuth int
-	authKey   []byte // encrypt the authenticator under this key instead of the session key
+	aCname     []string
+	aCnt       int32
+	aCrealm    string
+	ctimeOff   time.Duration // ctime+cusec = now + ctimeOff
+	ctimeYears int           // ... plus this many years (beyond what a Duration can express)
+	authUsage  uint32        // 0 = the right one
+	flipAuth   int
+	truncAuth  int
+	authKey    []byte // encrypt the authenticator under this key instead of the session key
 
 	// service settings
 	skew       time.Duration
@@ -124,6 +127,9 @@ func (c apCase) describe() string {
 	add(c.aCnt != c.cnt, "acnametype")
 	add(c.aCrealm != "", "acrealm="+c.aCrealm)
 	add(c.ctimeOff != 0, fmt.Sprintf("ctime=%v", c.ctimeOff))
+	add(c.ctimeYears != 0, fmt.Sprintf("ctime=%+dy", c.ctimeYears))
+	add(c.startYears != 0, fmt.Sprintf("start=%+dy", c.startYears))
+	add(c.endYears != 0, fmt.Sprintf("end=%+dy", c.endYears))
 	add(c.authUsage != 0, fmt.Sprintf("authusage=%d", c.authUsage))
 	add(c.flipAuth >= 0, "flipauth")
 	add(c.truncAuth > 0, "truncauth")
@@ -179,10 +185,10 @@ func mintAPReqKey(m *Model, rng *RNG, c apCase, now time.Time) (messages.APReq, 
 	}
 	etp := messages.EncTicketPart{Flags: fl, Key: sessionKey, CRealm: c.crealm,
 		CName:    types.PrincipalName{NameType: c.cnt, NameString: c.cname},
-		AuthTime: now.Add(-time.Hour).Truncate(time.Second), EndTime: now.Add(c.endOff).Truncate(time.Second),
+		AuthTime: now.Add(-time.Hour).Truncate(time.Second), EndTime: now.Add(c.endOff).AddDate(c.endYears, 0, 0).Truncate(time.Second),
 		RenewTill: now.Add(24 * time.Hour).Truncate(time.Second), CAddr: c.caddr}
 	if !c.noStart {
-		etp.StartTime = now.Add(c.startOff).Truncate(time.Second)
+		etp.StartTime = now.Add(c.startOff).AddDate(c.startYears, 0, 0).Truncate(time.Second)
 	}
 	// the long-term key the ticket is encrypted under
 	keyName := types.PrincipalName{NameString: c.sname}
@@ -259,7 +265,7 @@ func mintAPReqKey(m *Model, rng *RNG, c apCase, now time.Time) (messages.APReq, 
 		tkt.SName.NameString = c.tktSName
 	}
 	// authenticator
-	ct := now.Add(c.ctimeOff)
+	ct := now.Add(c.ctimeOff).AddDate(c.ctimeYears, 0, 0)
 	au := types.Authenticator{AVNO: 5, CRealm: c.crealm, CName: types.PrincipalName{NameType: c.aCnt, NameString: c.cname},
 		CTime: ct.Truncate(time.Second), Cusec: int(ct.Sub(ct.Truncate(time.Second)) / time.Microsecond), SeqNumber: int64(1 + rng.Intn(1000000))}
 	if c.aCname != nil {
